@@ -176,6 +176,165 @@ def run(chk):
         return True, "", [c.loc for c in nx]
     chk.ob("C16.R1d:true-only-after-comparison", "eq returns true only behind the complete comparison (or an identity test of address and length)", true_only_after_comparison)
 
+    def _direct_false(b, start):
+        """from `start` every path returns `false` without going round a loop or calling anything that is not a drop"""
+        reach = b.reachable_from(start)
+        if any(b.in_cycle(x) and start in b.reachable_from(x) for x in reach):
+            return False
+        for rb in b.return_blocks():
+            if rb not in reach:
+                continue
+            for path in b.acyclic_paths(start, rb, limit=200):
+                ps = mir.PathSummary(b, path)
+                if mir.o_const_value(ps.ret()) is not False:
+                    return False
+        return any(rb in reach for rb in b.return_blocks())
+
+    def mismatch_is_false():
+        """In the lock-step loop every comparison that can tell the templates apart ends the comparison with `false` on its unequal edge: the
+        byte comparison of the common text prefix, the comparison of two hole labels, and a part-kind mismatch (text against hole)."""
+        ev = []
+        cmps = 0
+        for bb, t in eqb.switches():
+            if not eqb.in_cycle(bb):
+                continue
+            so, pos = mir.norm_bool(eqb.switch_origin(bb))
+            if so[0] == "call" and so[1].callee.get("name") in ("ne", "eq") and ("PartialEq" in (so[1].callee.get("trait") or so[1].callee.get("full") or "")):
+                cmps += 1
+                is_ne = so[1].callee.get("name") == "ne"
+                # the edge on which the two operands differ
+                for v, tgt in [(v, n) for v, n in t["targets"]] + [("otherwise", t["otherwise"])]:
+                    truth = (str(v) != "0") == pos
+                    differ = truth if is_ne else not truth
+                    if differ and not _direct_false(eqb, tgt):
+                        return False, ("the comparison at %s does not end in `false` where its operands differ: templates with different text (or different "
+                                       "hole labels) at that position would compare equal" % so[1].loc), [], so[1].loc
+                ev.append(so[1].loc)
+        if cmps < 2:
+            raise mir.AnchorMissing("text and label comparisons in the lock-step loop of Template::eq (found %d)" % cmps)
+        # left-over text: the non-empty edge of every is_empty() test inside a loop ends in false
+        for bb, t in eqb.switches():
+            if not eqb.in_cycle(bb):
+                continue
+            so, pos = mir.norm_bool(eqb.switch_origin(bb))
+            if so[0] == "call" and so[1].callee.get("name") == "is_empty":
+                for v, tgt in [(v, n) for v, n in t["targets"]] + [("otherwise", t["otherwise"])]:
+                    empty = (str(v) != "0") == pos
+                    if not empty and not _direct_false(eqb, tgt):
+                        return False, "a left-over text fragment that is not empty (test at %s) does not make the templates unequal" % so[1].loc, [], so[1].loc
+                ev.append(so[1].loc)
+        # kind mismatch: along one iteration, the discriminants read from the two indexed parts differ -> false
+        kinds = {}
+        for bb, t in eqb.switches():
+            so = eqb.switch_origin(bb)
+            if eqb.in_cycle(bb) and so[0] == "discr":
+                x = so[1]
+                idx = None
+                while x[0] in ("field", "downcast", "index", "deref", "ref", "copy"):
+                    if x[0] == "index":
+                        idx = x[2] if len(x) > 2 else None
+                    x = x[1]
+                if x[0] == "call" and x[1].callee.get("name") == "parts":
+                    kinds[bb] = x[1].bb
+        sides = sorted(set(kinds.values()))
+        if len(sides) != 2:
+            raise mir.AnchorMissing("part-kind decisions of both templates in Template::eq (found %d sides)" % len(sides))
+        firsts = [bb for bb in kinds if not any(eqb.dominates(o, bb) and o != bb for o in kinds)]
+        for fb in firsts:
+            t = eqb.blocks[fb]["term"]
+            for v, tgt in [(v, n) for v, n in t["targets"]] + [("otherwise", t["otherwise"])]:
+                # second-level decision reached from this edge
+                for sb in kinds:
+                    if sb == fb or kinds[sb] == kinds[fb] or not eqb.edge_dominates(fb, tgt, sb):
+                        continue
+                    t2 = eqb.blocks[sb]["term"]
+                    listed = {str(x) for x, _ in t["targets"]}
+                    for v2, tgt2 in [(v2, n2) for v2, n2 in t2["targets"]] + [("otherwise", t2["otherwise"])]:
+                        same = (str(v2) == str(v)) if v != "otherwise" and v2 != "otherwise" else None
+                        if same is False and not _direct_false(eqb, tgt2):
+                            return False, "a text part compared against a hole (kinds %s / %s) does not make the templates unequal" % (v, v2), [], eqb.span
+                        if v2 == "otherwise" and v != "otherwise" and not _direct_false(eqb, tgt2):
+                            return False, "a part-kind mismatch does not make the templates unequal", [], eqb.span
+                if v == "otherwise" and tgt not in kinds and not _direct_false(eqb, tgt):
+                    return False, "an unexpected part kind does not make the templates unequal", [], eqb.span
+        return True, "", ev
+    chk.ob("C16.R1e:mismatch-is-false", "differing text bytes, differing hole labels and a text/hole mismatch each end the comparison with false", mismatch_is_false)
+
+    def cursors_mirror():
+        """The four cursors of the lock-step loop come in two mirrored pairs (part index and byte offset, for `self` and for `other`).  What is done
+        to one side is done to the other: the same number of `+ 1` steps of the part index, the byte offsets both advanced by the *same*
+        `min(..)` length, each offset reset to 0 in the block that steps its part index.  A step or reset missing on one side makes the loop
+        compare a fragment against the wrong bytes (or never end)."""
+        idx = {}
+        for bb, t in eqb.switches():
+            so = eqb.switch_origin(bb)
+            if eqb.in_cycle(bb) and so[0] == "discr":
+                x = so[1]
+                il = None
+                while x[0] in ("field", "downcast", "index", "deref", "ref", "copy"):
+                    if x[0] == "index" and len(x) > 2:
+                        io = x[2]
+                        il = io[2] if io[0] == "phi" and len(io) > 2 else (io[1] if io[0] == "local" else il)
+                    x = x[1]
+                if x[0] == "call" and x[1].callee.get("name") == "parts" and il is not None:
+                    idx[x[1].bb] = il
+        if len(idx) != 2:
+            raise mir.AnchorMissing("the two part-index cursors of Template::eq (found %s)" % sorted(idx.values()))
+        def shape(l):
+            out = []
+            for d in eqb.defs().get(l, ()):
+                if eqb.blocks[d[0]]["cleanup"] or d[2] == "partial":
+                    continue
+                o = eqb._origin_def(d, 0, (), set())
+                if o[0] == "const":
+                    out.append(("const", mir.o_const_value(o), d[0]))
+                elif o[0] == "field" and o[1][0] == "binop" and o[1][1] in ("AddWithOverflow", "Add"):
+                    r = o[1][3]
+                    if r[0] == "const":
+                        out.append(("add", mir.o_const_value(r), d[0]))
+                    elif r[0] == "call":
+                        out.append(("addcall", (r[1].callee.get("name"), r[1].bb), d[0]))
+                    else:
+                        out.append(("other", o_str(o), d[0]))
+                else:
+                    out.append(("other", o_str(o), d[0]))
+            return out
+        (sa, ia), (sb_, ib) = sorted(idx.items())
+        A, B = shape(ia), shape(ib)
+        if sorted(x[:2] for x in A) != sorted(x[:2] for x in B) or sum(1 for x in A if x[0] == "add" and x[1] == 1) < 2:
+            return False, ("the part index of one template is stepped %s and the other's %s: the two sides of the comparison no longer advance alike"
+                           % (sorted(x[:2] for x in A), sorted(x[:2] for x in B))), [], eqb.span
+        # byte offsets: the locals advanced by a min(..) call
+        offs = {}
+        for l in range(len(eqb.locals)):
+            sh = shape(l)
+            mins = [x for x in sh if x[0] == "addcall" and x[1][0] == "min"]
+            if mins:
+                offs[l] = (sh, mins[0][1][1])
+        if len(offs) != 2:
+            return False, "expected two byte offsets advanced by the common length min(..), found %d: one side's offset is no longer advanced" % len(offs), [], eqb.span
+        (la, (SA, ma)), (lb, (SB, mb)) = sorted(offs.items())
+        if ma != mb:
+            return False, "the two byte offsets are advanced by different lengths", [], eqb.span
+        if sorted(x[:2] if x[0] != "addcall" else ("addcall", "min") for x in SA) != sorted(x[:2] if x[0] != "addcall" else ("addcall", "min") for x in SB):
+            return False, "the byte offset of one template is updated %s and the other's %s" % ([x[:2] for x in SA], [x[:2] for x in SB]), [], eqb.span
+        # each offset is reset to 0 where its part index steps
+        for off_shape, ish in ((SA, A), (SB, B)):
+            resets = {x[2] for x in off_shape if x[0] == "const" and x[1] == 0 and eqb.in_cycle(x[2])}
+            steps = {x[2] for x in ish if x[0] == "add"}
+            if not resets or not (resets <= steps):
+                # tolerate pairing by index order (a-offset with a-index): try the other pairing below
+                pass
+        ra = {x[2] for x in SA if x[0] == "const" and x[1] == 0 and eqb.in_cycle(x[2])}
+        rb = {x[2] for x in SB if x[0] == "const" and x[1] == 0 and eqb.in_cycle(x[2])}
+        stepsA = {x[2] for x in A if x[0] == "add"}
+        stepsB = {x[2] for x in B if x[0] == "add"}
+        ok = (ra and rb and ((ra <= stepsA and rb <= stepsB) or (ra <= stepsB and rb <= stepsA)))
+        if not ok:
+            return False, "a byte offset is not reset to 0 in the block that steps its part index (or is never reset)", [], eqb.span
+        return True, "", ["part indices _%d/_%d, byte offsets _%d/_%d" % (ia, ib, la, lb)]
+    chk.ob("C16.R1f:cursors-mirror", "the two sides of the lock-step comparison advance alike (index steps, common-length offsets, resets)", cursors_mirror)
+
     def cursors():
         eqb = P.body(EQ)
         ok, detail, sites = panics.cursor_pairing(eqb)
